@@ -28,7 +28,7 @@ func runCaseC07(kind string, spec json.RawMessage) (vx.Out, bool) {
 
 func checkC07(tier string) int {
 	rep := vx.NewReport("C07", tier, "exploration")
-	rep.Rule = "E5: product of body sets (all 256 one-byte bodies + all two-byte bodies over {LF,CR,NUL,0xFF,space,A} in one batch; protocol look-alikes; position-dependent patterns at sizes around every buffer / file / limit boundary up to max-msg-size) x publish path {PUB, DPUB, MPUB, HTTP /pub, /mpub text, /mpub binary} x queue path {memory, disk, disk with 64-byte files, REQ 0, REQ delayed, timeout redelivery, graceful restart} x transport {plain, snappy, deflate 1/6/9, TLS, TLS+snappy, TLS+deflate} x output buffer {default, none, 64, max without timeout} (+ a second channel), each run on a real nsqd with a consumer that really negotiates the transport; plus every 4-byte length field of PUB / DPUB / MPUB arriving in two pieces (split after 1, 2, 3 bytes) with nothing, a message frame or a heartbeat sent to that connection in between. distinct = distinct (case, outcome) pairs"
+	rep.Rule = "E5: product of body sets (all 256 one-byte bodies + all two-byte bodies over {LF,CR,NUL,0xFF,space,A} in one batch; protocol look-alikes; position-dependent patterns at sizes around every buffer / file / limit boundary up to max-msg-size) x publish path {PUB, DPUB, MPUB, HTTP /pub, /mpub text, /mpub binary} x queue path {memory, disk, disk with 64-byte files, REQ 0, REQ delayed, timeout redelivery, graceful restart} x transport {plain, snappy, deflate 1/6/9, TLS, TLS+snappy, TLS+deflate} x output buffer {default, none, 64, max without timeout} (+ a second channel), each run on a real nsqd with a consumer that really negotiates the transport; plus every 4-byte length field of PUB / DPUB / MPUB arriving in two pieces (split after 1, 2, 3 bytes) with nothing, a message frame or a heartbeat sent to that connection in between; E1: a consumer's connection breaking while it is written to, then further deliveries and disk writes (no buffer shared between two users, bodies intact). distinct = distinct (case, outcome) pairs"
 	rep.Assumptions = []string{"crypto/tls, snappy and flate are trusted", "max-msg-size is set to 65536 for the size sweep"}
 	paths := []string{"pub", "dpub", "mpub", "hpub", "hmpub", "hmpubbin"}
 	queues := []string{"mem", "disk", "disk64", "req0", "reqd", "timeout", "restart"}
@@ -91,6 +91,17 @@ func checkC07(tier string) int {
 	}
 	rep.Extra["segmented_length_field_cases"] = nSeg
 	runCases(rep, jobs, 8)
+	// E1: sends that fail (the consumer's connection breaks while it is being written to)
+	// followed by further deliveries and disk writes - buffers must not leak between them
+	var mspecs []nsqd.MicroSpec
+	for _, st := range []string{"queued", "inflight"} {
+		for _, mq := range []int64{10, 0} {
+			for _, op := range []string{"pub", "rdy2_2", "scan"} {
+				mspecs = append(mspecs, nsqd.MicroSpec{State: st, MemQ: mq, Unbuf: true, Ops: []string{"rdydisc1", op}})
+			}
+		}
+	}
+	runMicros(rep, mspecs, 8, false)
 	rep.Extra["cases"] = len(jobs)
 	rep.Extra["bodies_per_small_batch"] = 292
 	return rep.Finish()
